@@ -247,7 +247,7 @@ _G_HTTPCUT = dict(dgen(GKinds='{"ok", "http_cut", "http"}', Balancers='{"round-r
 _G_CABORT = dict(dgen(GKinds='{"ok", "cabort", "refuse"}', Balancers='{"round-robin"}', Framings='{"cl", "chunked"}', NSteps=2), always=True)
 _G_CABORT_TR = dict(dgen(GKinds='{"cabort", "refuse"}', Balancers='{"round-robin"}', Framings='{"chunked"}', Routes='{"anthropic_stream"}', NSteps=2), always=True)
 # the global and the translator scope of the statistics are C19's own clauses (and KF-C19-3 is C19's finding)
-_C19_TRACE = dict(_DISPATCH_BASE["trace"], params={"Scopes": '{"global", "translator"}'})
+_C19_TRACE = dict(_DISPATCH_BASE["trace"], params={"Scopes": '{"global", "translator", "model"}'})
 PROPS["C19"] = {
     "rule": _DISPATCH_RULE + " For C19 the in-flight gauge is sampled by the backend while it holds each attempt and "
             "all gauges/counters are read at quiescence.",
